@@ -64,13 +64,17 @@ func zvMkTree(ks, vs []int) func() vrt.ConcInst {
 
 // zvPre: 0..3 stored keys. Quick tier: every shape up to 2 nodes plus the balanced 3-node tree
 // (root with two children: the successor-splice case of Delete); thorough: every 3-node shape.
+// zvC01: the race/panic/deadlock harness keeps the quick pre-states in both tiers (its thorough
+// run over every 3-node shape takes a quarter of an hour for no new method pairs).
+var zvC01 bool
+
 func zvPre() (ks, vs []int) {
 	n := vrt.Choice(4)
 	for i := 0; i < n; i++ {
 		ks = append(ks, vrt.Int())
 		vs = append(vs, vrt.Int())
 	}
-	if n == 3 && vrt.Tier() == 0 {
+	if n == 3 && (vrt.Tier() == 0 || zvC01) {
 		vrt.Assume(vrt.And(ks[1] < ks[0], ks[0] < ks[2]))
 	}
 	return
@@ -89,6 +93,7 @@ func zvBFollow(q vrt.ConcInst) bool {
 
 func zvBRun(pid string, kinds []int, share, lin bool) {
 	vrt.ConcShapes = 1 // pairs only, also in the thorough tier (triples over a tree exceed 25 min); thorough enlarges the pre-states instead
+	zvC01 = pid == "C01"
 	ks, vs := zvPre()
 	prog := vrt.ConcProgram(vrt.ConcShape(), kinds)
 	vrt.ConcCheck(pid, "BsTree", zvMkTree(ks, vs), prog, vrt.ConcKeys(ks, prog), share, lin, zvBFollow)
